@@ -73,6 +73,11 @@ func tValues() []tValue {
 		{"[[]]", func() *LNode { return LA(LA()) }},
 		{"[{}]", func() *LNode { return LA(LO()) }},
 		{"[[{k:s}]]", func() *LNode { return LA(LA(LO("k", s()))) }},
+		// several documents / arrays side by side inside an inner array, each with another encoding
+		{"[[{k:s},{k:s,j:1}]]", func() *LNode { return LA(LA(LO("k", s()), LO("k", LS("t"), "j", LN("1")))) }},
+		{"[[s,{k:s}],[{j:1},{i:[{k:s},{h:2}]}]]", func() *LNode {
+			return LA(LA(s(), LO("k", s())), LA(LO("j", LN("1")), LO("i", LA(LO("k", s()), LO("h", LN("2"))))))
+		}},
 		{"[s,$s]", func() *LNode { return LA(s(), LS("$s")) }},
 		{"[1,[2,[3]]]", func() *LNode { return LA(LN("1"), LA(LN("2"), LA(LN("3")))) }},
 		{"{k:s}", func() *LNode { return LO("k", s()) }},
